@@ -30,21 +30,21 @@ type ghostDeep struct {
 }
 
 type Prog struct {
-	repo      string
-	pkgs      []*packages.Package
-	prog      *ssa.Program
-	spkgs     []*ssa.Package
-	modPkgs   map[string]*ssa.Package // module packages by path
-	cs        *ContractSet
-	funcs     map[string]*ssa.Function // pkgpath::RelString
-	pkgByName map[string]*types.Package
-	pkgByPath map[string]*types.Package
-	ghosts    []*ghostInfo
+	repo         string
+	pkgs         []*packages.Package
+	prog         *ssa.Program
+	spkgs        []*ssa.Package
+	modPkgs      map[string]*ssa.Package // module packages by path
+	cs           *ContractSet
+	funcs        map[string]*ssa.Function // pkgpath::RelString
+	pkgByName    map[string]*types.Package
+	pkgByPath    map[string]*types.Package
+	ghosts       []*ghostInfo
 	defHeapCache map[string][]heapRef
-	modulePath string
-	implCache map[string][]types.Type
-	loadSecs  float64
-	allocCache map[*ssa.Function]map[string]types.Type
+	modulePath   string
+	implCache    map[string][]types.Type
+	loadSecs     float64
+	allocCache   map[*ssa.Function]map[string]types.Type
 }
 
 func LoadProg(repo, trustedDir string) (*Prog, error) {
